@@ -135,8 +135,13 @@ def predicate(ctx, optic, case, par, w):
             for what, errs in (('height', ey), ('tangent', et)):
                 # limit: at the smallest eps the discrepancy must be small
                 if errs[-1] > 1e-4 * max(1.0, errs[0] / max(es[0] ** 2, 1e-300) * es[-1] ** 2 * 1e4):
+                    fk = key
+                    if fk is None and has_parabola and min(errs) < 1e-6 and errs[-1] > 10 * min(errs):
+                        # F23b: the discrepancy *grows* again as eps shrinks - rounding noise of the conic quadratic
+                        # (a = L^2 + M^2 -> 0 for k = -1), not a failure to converge
+                        fk = 'conic-quadratic-cancellation'
                     ctx.fail('real %s-ray %s / eps converges to the paraxial value at surface %d' % (kind, what, j),
-                             case, {'eps': es[-1], 'relative_discrepancy': errs[-1]}, finding_key=key)
+                             case, {'eps': es[-1], 'relative_discrepancy': errs[-1], 'errors': errs}, finding_key=fk)
                     return
                 slope = fit_slope(es, errs, 1e-11)
                 if slope is not None and slope < 1.8 and has_parabola and min(errs) < 1e-6:
